@@ -96,7 +96,10 @@ type TSyncCase struct {
 
 // NNPCase: no_new_privs ordering and pinning (C11).
 type NNPCase struct {
-	Mode string `json:"mode"` // "plain", "gosched", "migrate"
+	Mode       string `json:"mode"` // "plain", "gosched", "migrate", "busy"
+	GoMaxProcs int    `json:"gomaxprocs,omitempty"`
+	// CallerLocked: the calling goroutine has locked its OS thread itself before the call
+	CallerLocked bool `json:"caller_locked,omitempty"`
 }
 
 var (
